@@ -114,8 +114,8 @@ func Rewrite(src []byte, info *types.Info, fset *token.FileSet, file *ast.File, 
 				switch st := cc.Comm.(type) {
 				case *ast.AssignStmt:
 					ue, ok := st.Rhs[0].(*ast.UnaryExpr)
-					if !ok || ue.Op != token.ARROW || st.Tok != token.DEFINE {
-						r.decline("select case %d is not a receive with :=", i)
+					if !ok || ue.Op != token.ARROW || (st.Tok != token.DEFINE && st.Tok != token.ASSIGN) {
+						r.decline("select case %d is not a receive with := or =", i)
 						return true
 					}
 					cases = append(cases, method(ue.X, "RecvCase"))
@@ -133,10 +133,10 @@ func Rewrite(src []byte, info *types.Info, fset *token.FileSet, file *ast.File, 
 						lhs = append(lhs, st.Lhs[1])
 						rhs = append(rhs, ast.NewIdent(fmt.Sprintf("sok_%d", id)))
 					}
-					pre = append(pre, &ast.AssignStmt{Lhs: lhs, Tok: token.DEFINE, Rhs: rhs})
+					pre = append(pre, &ast.AssignStmt{Lhs: lhs, Tok: st.Tok, Rhs: rhs})
 					// silence "declared and not used" for v / ok
 					for _, l := range lhs {
-						if idn, ok := l.(*ast.Ident); ok && idn.Name != "_" {
+						if idn, ok := l.(*ast.Ident); ok && idn.Name != "_" && st.Tok == token.DEFINE {
 							pre = append(pre, &ast.AssignStmt{Lhs: []ast.Expr{ast.NewIdent("_")}, Tok: token.ASSIGN, Rhs: []ast.Expr{ast.NewIdent(idn.Name)}})
 						}
 					}
